@@ -7,9 +7,10 @@
    constants.
 
    input:
-     1 :: axis0 :: nr :: nc :: x (nr*nc integers, row-major)
+     1 :: axis0 :: nr :: nc :: nsh :: x (nr*nc integers, row-major)
        ++ twiddles  (n pairs  re,im  of w_k * 2^48, k = 0..n-1;  n = nc, or nr if axis0 = 1)
-       ++ phases    (ntr tables of (n/2+1) pairs re,im of p_k * 2^48; ntr = nr, or nc if axis0 = 1)
+       ++ phases    (nsh tables of (n/2+1) pairs re,im of p_k * 2^48; one per entry of the shift
+                     vector — the real code needs nsh = number of traces = nr, or nc if axis0 = 1)
          -> 1 :: floor(y * 2^40) for every output sample (row-major)   | 0 if the model refuses
      2 :: ns :: x (ns integers)
          -> 1 :: edge :: num ipeak :: den ipeak :: num maxi :: den maxi  | 0 (empty input)
@@ -55,10 +56,10 @@ Definition qfloor_scaled (q : Q) : Z := (Qnum q * OUTSC) / Zpos (Qden q).
 Definition wtable (n : nat) (tab : list qc) (k : Z) : qc :=
   nth (Z.to_nat (k mod Z.of_nat n)) tab q0.
 
-Definition run_fshift (axis0 nr nc : Z) (r : list Z) : list Z :=
+Definition run_fshift (axis0 nr nc nsh : Z) (r : list Z) : list Z :=
   let nrn := Z.to_nat nr in let ncn := Z.to_nat nc in
   let n := if axis0 =? 1 then nrn else ncn in
-  let ntr := if axis0 =? 1 then ncn else nrn in
+  let ntr := Z.to_nat nsh in
   let xs := firstn (nrn * ncn) r in
   let r1 := skipn (nrn * ncn) r in
   let tw := pairs_of (firstn (2 * n) r1) in
@@ -79,7 +80,7 @@ Definition run_parab (r : list Z) : list Z :=
 
 Definition run (inp : list Z) : list Z :=
   match inp with
-  | 1 :: axis0 :: nr :: nc :: r => run_fshift axis0 nr nc r
+  | 1 :: axis0 :: nr :: nc :: nsh :: r => run_fshift axis0 nr nc nsh r
   | 2 :: ns :: r => run_parab (firstn (Z.to_nat ns) r)
   | 3 :: m :: ns :: r =>
       let x := firstn (Z.to_nat ns) r in
